@@ -11,6 +11,7 @@ import LlgVerif.Proofs.CfgPrefixMain
 import LlgVerif.Proofs.Earley
 import LlgVerif.Proofs.EarleyPure
 import LlgVerif.Proofs.EarleyRowsWant
+import LlgVerif.Proofs.EarleyMask
 namespace LlgVerif
 namespace Cfg
 
@@ -170,6 +171,25 @@ theorem c05_earley_allowed_lexeme_viable (g : Ey.CG) (hw : g.wf = true) (hp : g.
     rw [List.take_of_length_le (by simp)]
   rw [e] at hv
   simpa using hv
+
+/-- **the lexeme-level mask of the rows is exact**: a lexeme is allowed by the last row exactly when
+`lexs` followed by it extends to an input the compiled grammar accepts. -/
+theorem c05_earley_lexeme_mask_exact (g : Ey.CG) (hw : g.wf = true) (hn : g.nullableClosed = true)
+    (hp : g.allProductive = true) (lexs : List (List Nat))
+    (hc : Ey.rowsClosed g lexs (Ey.runRows g lexs) = true) (l : Nat) :
+    l ∈ Ey.allowedLexemes g ((Ey.runRows g lexs).getD lexs.length []) ↔
+      ∃ v, Ey.Accepts g (lexs ++ [l] :: v) := by
+  unfold Ey.allowedLexemes
+  rw [List.mem_filterMap]
+  constructor
+  · rintro ⟨it, hit, hl⟩
+    exact c05_earley_allowed_lexeme_viable g hw hp lexs it l hit hl
+  · rintro ⟨v, hv⟩
+    obtain ⟨p, i, l', hwant, hl, hm⟩ := Ey.accepted_scans g (Ey.wf_of_check g hw)
+      (Ey.nullClosed_of_check g hn) lexs [l] v hv
+    have : l' = l := by simpa using hm
+    subst this
+    exact ⟨(p, i), c05_earley_rows_complete g lexs hc _ _ hwant (Nat.le_refl _), hl⟩
 
 /-! non-vacuity: `S → a S | ε` as a compiled grammar (symbol 0 is the null symbol, rules start at
 multiples of 4), input `a a`: all checks hold and the last row accepts -/
